@@ -208,8 +208,18 @@ func init() {
 			return mkStr(b[1].([]value))
 		},
 		"internal/reflectlite.TypeOf": func(fr *frame, a []value) value {
-			return iface{} // only used by errors.Is/As machinery which the targets do not reach
+			x := a[0].(iface)
+			if x.t == nil {
+				return iface{}
+			}
+			pkg := fr.i.prog.ImportedPackage("internal/reflectlite")
+			rt := pkg.Type("rtype").Object().Type()
+			return iface{t: rt, v: rtype{x.t}}
 		},
+		"(internal/reflectlite.rtype).Comparable": func(fr *frame, a []value) value {
+			return types.Comparable(a[0].(rtype).t)
+		},
+		"(internal/reflectlite.rtype).String": func(fr *frame, a []value) value { return a[0].(rtype).t.String() },
 		"internal/godebug.New":            nil,
 		"(*internal/godebug.Setting).Value": func(fr *frame, a []value) value { return "" },
 		"(*internal/godebug.Setting).IncNonDefault": func(fr *frame, a []value) value { return nil },
